@@ -86,7 +86,14 @@ theorem C02_gen_parse_contains (W : Obj.World PyVal) (acc : PyVal → Bool) (c :
     cases declared with
     | false => obj_simp [Parse.parse_contains, encCls, getattr, lookupAttr, parseContains, Except.map, decode]
     | true =>
-      obj_simp [Parse.parse_contains, encCls, getattr, lookupAttr, enumerate, encSeq, iter]
+      have hri : Parse.read_items W (.obj "Rule" [("contains", .cls 0), ("min_contains", encBound minC),
+          ("max_contains", encBound maxC)]) (encSeq k xs) ctx0 (.bool false)
+          = .ok (ctx0, Outcome.ret (.seq .list (xs.map .val))) := by
+        unfold Parse.read_items
+        simp only [truthy_bool, encSeq, toList, iter, bind, Except.bind, pure, Except.pure, Bool.false_eq_true, if_false,
+          tryCatch, tryCatchThe, MonadExceptOf.tryCatch, Except.tryCatch]
+        rfl
+      obj_simp [Parse.parse_contains, encCls, getattr, lookupAttr, hri, enumerate, iter]
       rw [forIn_count0 (acc := acc)]
       · simp only [handle_error_ff]
         cases minC <;> cases maxC <;>
